@@ -36,8 +36,10 @@ struct Case {
   V3 anchor, sides;
   std::vector< V3 > gen;
   bool run_old = true;
-  bool old_in_domain = true; // the property binds the old construction on this input
+  bool old_in_domain = true; // the property binds the old construction on this input (set by finish_case)
   bool degenerate = false;   // exactly degenerate input (lattice, cospherical)
+  double margin = 0.;        // distance (length) of the input from exact degeneracy / size of its smallest feature
+  double margin_ratio = 0.;  // margin / (100 * snapping distance of the old construction)
   int threads = 1;           // >1: also construct with this many threads and compare
 };
 
@@ -47,6 +49,22 @@ static inline double frac(double x) { return x - std::floor(x); }
 static V3 pattern(long q, long seed) {
   return V3(frac((q + 1) * PHI[0] + 0.137 * seed) - 0.5, frac((q + 1) * PHI[1] + 0.271 * seed) - 0.5,
             frac((q + 1) * PHI[2] + 0.419 * seed) - 0.5);
+}
+
+/// The old construction decides "vertex on the cutting plane" with an absolute tolerance eps_old =
+/// OLDVORONOI_TOLERANCE * |sides|^2 on (squared) lengths, which snaps vertices within delta_old =
+/// 4 eps_old / s_gen of a plane (s_gen: smallest generator distance). The property binds it only on
+/// inputs whose distance from degeneracy (margin) is at least 100 delta_old.
+static void finish_case(Case &c) {
+  double s_gen = DBL_MAX;
+  for (size_t i = 0; i < c.gen.size(); ++i)
+    for (size_t j = i + 1; j < c.gen.size(); ++j)
+      s_gen = std::min(s_gen, (c.gen[i] - c.gen[j]).norm());
+  const double delta_old = 4. * OLDVORONOI_TOLERANCE * c.sides.norm2() / s_gen;
+  if (c.margin < 0.)
+    c.margin = 0.5 * s_gen; // generic sets: smallest feature
+  c.margin_ratio = c.margin / (100. * delta_old);
+  c.old_in_domain = !c.degenerate && c.margin_ratio >= 1.;
 }
 
 // ---- (i),(ii): subsets of the 3x3x3 lattice ---------------------------------
@@ -123,7 +141,8 @@ static Case subset_case(uint32_t mask, bool perturbed, long seed) {
   c.name = fmt("subset%s:%s", perturbed ? "P" : "E", ids.c_str());
   c.degenerate = !perturbed;
   c.run_old = perturbed; // (i): new construction only
-  c.old_in_domain = perturbed;
+  c.margin = perturbed ? 0.5e-3 : 0.;
+  finish_case(c);
   return c;
 }
 
@@ -159,7 +178,8 @@ static Case lattice_case(int n, const BoxShape &B, double pert, long seed) {
   c.degenerate = (pert == 0.);
   c.family = pert == 0. ? "lattice-exact" : fmt("lattice-perturbed-%g", pert);
   c.name = fmt("lattice:n=%d:box=%s:pert=%g", n, B.name, pert);
-  c.old_in_domain = !c.degenerate;
+  c.margin = 0.5 * pert * std::min(B.sides.x(), std::min(B.sides.y(), B.sides.z())) / n;
+  finish_case(c);
   return c;
 }
 
@@ -183,11 +203,10 @@ static Case cluster_case(int kmax, const BoxShape &B, int corner, long seed) {
     c.gen.push_back(V3(B.anchor.x() + f.x() * B.sides.x(), B.anchor.y() + f.y() * B.sides.y(),
                        B.anchor.z() + f.z() * B.sides.z()));
   }
-  c.family = kmax <= 10 ? "cluster-2^-k(k<=10)" : "cluster-2^-k(deep)";
+  c.family = fmt("cluster-2^-k(k<=%d)", kmax);
   c.name = fmt("cluster:kmax=%d:box=%s:corner=%d", kmax, B.name, corner);
-  // the old construction decides "on the plane" with an absolute tolerance of 2e-10*|sides|^2 on
-  // squared lengths: cluster scales below ~1e-3 of the box are inside that tolerance
-  c.old_in_domain = (kmax <= 10);
+  c.margin = -1.; // generic: smallest feature = half the smallest generator distance
+  finish_case(c);
   return c;
 }
 
@@ -235,7 +254,8 @@ static Case wall_case(int variant, const BoxShape &B, long seed) {
   // variant 3 is degenerate in its outer layers (exact planes of points)
   c.degenerate = (variant == 3);
   // distances of 1e-9 are far below the absolute tolerance of the old construction
-  c.old_in_domain = false;
+  c.margin = e * std::min(B.sides.x(), std::min(B.sides.y(), B.sides.z()));
+  finish_case(c);
   return c;
 }
 
@@ -297,7 +317,8 @@ static Case shell_case(int shell, bool centre, double pert, const BoxShape &B, l
   c.degenerate = (pert == 0.);
   c.family = pert == 0. ? "cospherical-exact" : "cospherical-perturbed";
   c.name = fmt("shell:s=%d:centre=%d:pert=%g:box=%s", shell, (int)centre, pert, B.name);
-  c.old_in_domain = !c.degenerate;
+  c.margin = 0.5 * pert * std::min(B.sides.x(), std::min(B.sides.y(), B.sides.z()));
+  finish_case(c);
   return c;
 }
 
@@ -318,7 +339,8 @@ static std::vector< Case > family_cases(bool thorough, long seed) {
     for (int corner = 0; corner < 8; ++corner) {
       if (!thorough && corner != 0 && corner != 7 && corner != 2)
         continue;
-      L.push_back(cluster_case(6, BOXES[b], corner, seed));
+      L.push_back(cluster_case(4, BOXES[b], corner, seed));
+      L.push_back(cluster_case(7, BOXES[b], corner, seed));
       L.push_back(cluster_case(10, BOXES[b], corner, seed));
       L.push_back(cluster_case(20, BOXES[b], corner, seed));
       if (thorough)
@@ -537,6 +559,13 @@ static bool validate(const char *who, const Case &c, const GridD &D, const std::
     found.push_back(std::make_pair(pre + what + ":" + c.family, fmt("case %s: ", c.name.c_str()) + detail));
   };
   const double V = c.sides.x() * c.sides.y() * c.sides.z();
+  // tolerance of the sums: every vertex may be off by T.extra, which moves every face
+  double surface = 0.;
+  for (size_t i = 0; i < n; ++i)
+    for (const FaceD &F : D.cells[i].faces)
+      if (F.area > 0. && std::isfinite(F.area))
+        surface += F.area;
+  const double rel_sum = std::max(T.rel_sum, T.extra * surface / V);
   // 1. volumes
   double sum = 0.;
   for (size_t i = 0; i < n; ++i) {
@@ -549,11 +578,11 @@ static bool validate(const char *who, const Case &c, const GridD &D, const std::
   {
     const double err = std::fabs(sum - V) / V;
     w_max(fmt("%s_max_rel_volume_sum_error", who), std::isfinite(err) ? err : 1e300);
-    w_max(fmt("%s_max_volume_sum_error_over_tol", who), std::isfinite(err) ? err / T.rel_sum : 1e300);
-    if (!(err <= T.rel_sum))
+    w_max(fmt("%s_max_volume_sum_error_over_tol", who), std::isfinite(err) ? err / rel_sum : 1e300);
+    if (!(err <= rel_sum))
       bad("volume-sum", fmt("cell volumes sum to %.17g, box volume %.17g (relative error %.3g, %zu cells)",
                             sum, V, err, n));
-    else if (err > 0.1 * T.rel_sum)
+    else if (err > 0.1 * rel_sum)
       w_count(fmt("%s_volume_sum_within_10x_of_tolerance", who));
   }
   // 2. faces
@@ -683,6 +712,12 @@ static bool validate(const char *who, const Case &c, const GridD &D, const std::
       collect(D.cells[j], i, u, b);
       if (a.count > 1)
         w_count(fmt("%s_common_faces_split_in_several_polygons(info)", who));
+      if (b.count == 0 && a.A <= 2. * a.D * T.extra) {
+        // thinner than the vertex tolerance of this construction (only relevant for the old one,
+        // whose plane test snaps vertices): negligible
+        w_count(fmt("%s_faces_thinner_than_own_tolerance_without_partner", who));
+        continue;
+      }
       if (b.count == 0) {
         bad("face-without-partner", fmt("cell %zu has a face of area %.6g (midpoint %s) with cell %zu, which has no "
                                         "face with cell %zu",
@@ -725,7 +760,7 @@ static bool validate(const char *who, const Case &c, const GridD &D, const std::
     const double A = c.sides[(axis + 1) % 3] * c.sides[(axis + 2) % 3];
     const double err = std::fabs(wall_area[w] - A) / A;
     w_max(fmt("%s_max_rel_wall_area_error", who), err);
-    if (!(err <= 10. * T.rel_sum))
+    if (!(err <= 10. * rel_sum))
       bad("wall-area-sum", fmt("faces on wall %d sum to %.17g, wall area %.17g", w, wall_area[w], A));
   }
   // 3. get_index = nearest generator
@@ -1056,6 +1091,7 @@ static void run_case(const Case &c, int stage_timeout, bool verbose) {
       printf("  old construction: %s (%s its domain)\n", ook ? "valid" : "INVALID",
              c.old_in_domain ? "inside" : "outside");
     if (c.old_in_domain) {
+      w_max("old_in_domain_smallest_margin_ratio(negated)", -c.margin_ratio);
       w_count(ook ? "old_valid" : "old_invalid");
       if (ook && nok)
         compare(c, N, O, TO, "C15:old-vs-new:");
